@@ -44,7 +44,7 @@ rotating_size = dict(
     name='RS.size_files', primary='C14', props={'C14'}, kind='L', funcs=[], enforce=None,
     desc='the real RotatingFileSink with size rotation on real files (write_log, _size_rotation, _rotate_files incl. the rename chain, names and deletion) against the property: whole statements, in order, nothing lost unless overwritten, within the size and count bounds',
     native=dict(cpp='rotating_size.cpp', file='include/quill/sinks/RotatingSink.h', function='RotatingSink::{write_log,_size_rotation,_rotate_files,_get_filename,_rename_file,_remove_file}', defs_quick=['LEN=5'], defs_thorough=['LEN=7']),
-    bounded=dict(bound='sequences of <= 5 (thorough: 7) statements over 3 sizes x 3 backup limits x overwrite on/off', form='b'),
+    bounded=dict(bound='2 file namings (with / without extension, dotted directory) x sequences of <= 5 (thorough: 7) statements over 3 sizes x 3 backup limits x overwrite on/off', form='b'),
     dropped=[], trusted=['g++ / libstdc++ / the file system execute the real sink'], min_obligations=1, timeout=1200)
 UNITS += [rotating_size]
 rotating_time = dict(
